@@ -56,7 +56,7 @@ Check(t) ==
          ELSE IF t.norm_exc \notin {"", "none"} THEN <<"normalization-layer-failed:" \o t.norm_exc, "", Len(rows)>>
          ELSE IF \E i \in DOMAIN t.norm : In(e, [val |-> t.norm[i].q.val, w |-> 1])
                                           /\ \E j \in DOMAIN t.norm[i].out : t.norm[i].out[j] > 256 + Tol \/ t.norm[i].out[j] < -256 - Tol
-              THEN <<"normalization-outside-unit-box", "", Len(rows)>>
+              THEN <<"normalization-outside-unit-box", DepBox(e), Len(rows)>>          \* (the layer is built from the estimated box)
          ELSE <<"ok", "", Len(rows)>>
 Init == tid \in 1..Len(Traces) /\ LET r == Check(Traces[tid]) IN verdict = r[1] /\ dev = r[2] /\ judged = r[3]
 Next == FALSE /\ UNCHANGED <<tid, verdict, dev, judged>>
